@@ -978,7 +978,10 @@ def oracleC10 (p : Parsed) (ex : Expect) (fs : List (String × String)) : Option
         (match fakeWorld.decode o.scodec dec with
          | some v => fakeWorld.encode o.ccodec v
          | none => [])
-      (f.2.length > L && (o.ccodec != o.scodec || o.cform.endMustBeInHeaders)) || dec.length > L && (o.ccodec != o.scodec || (f.1 == 1 && false)) || reenc.length > L
+      -- responses are decompressed only to be re-encoded: with the same codec on both sides a compressed message is
+      -- forwarded as it is and only its wire size counts
+      (f.2.length > L && (o.ccodec != o.scodec || o.cform.endMustBeInHeaders)) ||
+        (o.ccodec != o.scodec && (dec.length > L || reenc.length > L))
     let respCheck : Option String :=
       if !respBuffering || ex.errCode != 0 then none else
       match respFrames.findIdx? respOversized with
@@ -1040,7 +1043,8 @@ def oracleC05 (p : Parsed) (ex : Option Expect) (fs : List (String × String)) :
   | .transcoded o =>
     if fieldOf fs "disp" != "svc" then none else
     let bh := parseHdrField (fieldOf fs "bh")
-    let lostReq := p.sc.req.headers.find? fun e => !controlKeys.contains e.1 && bh.values e.1 != e.2
+    -- the observation renders runs of non-ASCII bytes as '?' (asciiFold): compare in that form
+    let lostReq := p.sc.req.headers.find? fun e => !controlKeys.contains e.1 && bh.values (asciiFold e.1) != e.2.map asciiFold
     match lostReq with
     | some e => some ("request header did not reach the backend unchanged: " ++ toHex e.1)
     | none =>
@@ -1054,7 +1058,7 @@ def oracleC05 (p : Parsed) (ex : Option Expect) (fs : List (String × String)) :
         | none => none
         | some ex =>
           if !ex.sizesSafe then none else
-          let missH := ex.respHeaders.find? fun kv => !(ch.values kv.1).contains kv.2
+          let missH := ex.respHeaders.find? fun kv => !(ch.values (asciiFold kv.1)).contains (asciiFold kv.2)
           match missH with
           | some kv => some ("response header lost: " ++ toHex kv.1)
           | none =>
@@ -1062,7 +1066,7 @@ def oracleC05 (p : Parsed) (ex : Option Expect) (fs : List (String × String)) :
             -- in a trailers-only exchange (on either leg) headers and trailers are one block
             let inHeaders := ex.trailersInHeaders || (fieldOf fs "end").startsWith "hdr:"
             let missT := ex.trailers.find? fun kv =>
-              !((ctCanon.values kv.1).contains kv.2 || (inHeaders && (ch.values kv.1).contains kv.2))
+              !((ctCanon.values (asciiFold kv.1)).contains (asciiFold kv.2) || (inHeaders && (ch.values (asciiFold kv.1)).contains (asciiFold kv.2)))
             match missT with
             | some kv => some ("trailer lost or misplaced: " ++ toHex kv.1)
             | none => none
